@@ -266,11 +266,17 @@ func (s *Scope) Decorate(decorator interface{}, opts ...DecorateOption) error {
 	if err != nil {
 		return err
 	}
+	seen := make(map[key]struct{}, len(keys))
 	for _, k := range keys {
 		if _, ok := s.decorators[k]; ok {
 			return newErrInvalidInput(
 				fmt.Sprintf("cannot decorate using function %v: %s already decorated", dn.dtype, k), nil)
 		}
+		if _, ok := seen[k]; ok {
+			return newErrInvalidInput(
+				fmt.Sprintf("cannot decorate using function %v: %s is returned more than once", dn.dtype, k), nil)
+		}
+		seen[k] = struct{}{}
 	}
 	for _, k := range keys {
 		s.decorators[k] = dn
